@@ -18,7 +18,7 @@ import time
 
 VERIF = os.path.dirname(os.path.dirname(os.path.abspath(__file__)))
 REPO = "/repo"
-SCRATCH = "/tmp/seedcheck"
+SCRATCH = os.environ.get("VERIF_SCRATCH", "/tmp/seedcheck")
 
 
 def sh(cmd, cwd=None, timeout=3600, env=None):
@@ -122,12 +122,33 @@ def main():
     ap.add_argument("name")
     ap.add_argument("--checks")
     ap.add_argument("--skip-confirm", action="store_true")
+    ap.add_argument("--confirm-only", action="store_true",
+                    help="only confirm the change in the scratch worktree and cache the result in <mdir>/confirmation.json")
     a = ap.parse_args()
+    cache = os.path.join(a.mdir, "confirmation.json")
+    if a.confirm_only:
+        log = []
+        conf = confirm(a.mdir, log)
+        conf["head"] = sh(["git", "-C", REPO, "rev-parse", "HEAD"])[1].strip()
+        json.dump({"confirmation": conf, "log": log}, open(cache, "w"), indent=1)
+        print("\n".join(log))
+        print("confirmed: %s" % conf["confirmed"])
+        return
     log = []
     dst = os.path.join(VERIF, "seeded", a.name)
     meta_path = os.path.join(dst, "meta.json")
     meta = json.load(open(meta_path)) if os.path.exists(meta_path) else {}
-    if not a.skip_confirm:
+    head = sh(["git", "-C", REPO, "rev-parse", "HEAD"])[1].strip()
+    cached = json.load(open(cache)) if os.path.exists(cache) else None
+    if cached and cached["confirmation"].get("head") == head and not a.skip_confirm:
+        conf = cached["confirmation"]
+        log += cached.get("log", [])
+        meta["confirmation"] = conf
+        if not conf["confirmed"]:
+            print("\n".join(log))
+            print("NOT CONFIRMED: %s" % conf)
+            sys.exit(3)
+    elif not a.skip_confirm:
         conf = confirm(a.mdir, log)
         meta["confirmation"] = conf
         if not conf["confirmed"]:
